@@ -311,6 +311,18 @@ void ThreadPool::threadProc(ThreadToken thread_token)
              */
             if ((d_->idle_thread_num >= d_->undo_tasks_cabinet.size()) && (d_->threads_cabinet.size() > d_->min_thread_num)) {
                 LogDbg("thread %u will exit, no more work.", thread_token.id());
+                /**
+                 * 决定退出的同时（同一个临界区内）就把自己从 threads_cabinet 中移除，并交给
+                 * main_loop 去 join() 与 delete。否则 execute() 在此之后看到的线程数仍包含本
+                 * 线程，可能既不创建新线程、也没有线程去领取新任务，导致任务一直得不到执行
+                 */
+                auto t = d_->threads_cabinet.free(thread_token);
+                if (t != nullptr) {
+                    d_->wp_loop->runInLoop(
+                        [t]{ t->join(); delete t; },
+                        "ThreadPool::threadProc, join and delete it"
+                    );
+                }
                 let_main_loop_join_me = true;
                 break;
             }
@@ -377,18 +389,7 @@ void ThreadPool::threadProc(ThreadToken thread_token)
 
     if (let_main_loop_join_me) {
         TBOX_VERIF_SCHED_POINT("thread_pool.worker_exit_decided");
-        //! 则将线程取出来，交给main_loop去join()，然后delete
-        std::unique_lock<std::mutex> lk(d_->lock);
-
-        auto t = d_->threads_cabinet.free(thread_token);
-        //! 如果为空，说明 cleanup() 已经接管了本线程对象，由它负责 join() 与 delete
-        if (t != nullptr) {
-            d_->wp_loop->runInLoop(
-                [t]{ t->join(); delete t; },
-                "ThreadPool::threadProc, join and delete it"
-            );
-        }
-        //! 这个操作放到最后来做是为了减少主线程join()的等待时长
+        //! 线程对象已在决定退出时交给 main_loop 去 join() 与 delete，此后不再访问 d_
     }
 }
 
